@@ -314,8 +314,13 @@ def r4_1(ctx, R, otypes):
                 ok, det2 = _explicit_counter_step(ctx, b, fl, bb, paths)
                 det += "; explicit form: " + det2
             n += 1
-            kinds.setdefault("from_iter", 0)
-            kinds["from_iter"] += 1
+            # the read-then-advance idiom applied to the collection's own incoming counter (a shared `take_index(&mut
+            # self.next_incoming_index)`) is a push-back numbering site, not a from_iter one
+            kind_ = "from_iter"
+            if idx[0] == "proj" and idx[1][0] == "call" and (idx[1][1] or "").endswith("mem::replace") and \
+                    counter_of(ctx, b, idx[1][2][0], allc) in incoming:
+                kind_ = "back"
+            kinds[kind_] = kinds.get(kind_, 0) + 1
             ctx.ob("R4.1", b, "from_iter:index=old-counter,counter+=1", ok, b.loc(bb), det)
             continue
         n += 1
